@@ -3,35 +3,52 @@ EXTENDS Integers, Sequences, FiniteSets, TLC, Json, IOUtils
 CONSTANTS WrapFix, Epoch
 Trace == ndJsonDeserialize(IOEnv.TRACE_FILE)
 VARIABLES l, number, validators, pending, recents, cons, last,
+          announced, \* ground truth: the validator list carried by the last accepted epoch header (or installed by the creation / upgrade header)
           sealed    \* ground truth kept by the trace itself: sealed[n] = sealer of the accepted header n (not the client's own records)
 Vals == {1, 2, 3, 4, 5, 6, 7}
 InitNumber == 0
 InitSet == {}
 InitSigner == 0
 MaxNumber == 1000
+UpgradeSets == {}
 INSTANCE BSCClient
 SetOf(s) == {s[i] : i \in DOMAIN s}
 ln(k) == Trace[k]
 FnOf(list) == LET S == SetOf(list) IN [x \in {e[1] : e \in S} |-> (CHOOSE e \in S : e[1] = x)[2]]
 Hd(a) == [number |-> a.number, parentOK |-> a.parentOK, signer |-> a.signer, coinbaseOK |-> a.coinbaseOK, diff |-> a.diff, extra |-> SetOf(a.extra), structOK |-> a.structOK]
-TInit == l = 0 /\ number = 0 /\ validators = {} /\ pending = {} /\ recents = <<>> /\ cons = {} /\ last = [act |-> "None", res |-> "ok"] /\ sealed = <<>>
+TInit == l = 0 /\ number = 0 /\ validators = {} /\ pending = {} /\ recents = <<>> /\ cons = {} /\ last = [act |-> "None", res |-> "ok"] /\ sealed = <<>> /\ announced = {}
 Report(k, name, holds) == holds \/ PrintT(<<"VIOL", k, name>>)
 IsStep(k) == ln(k).ev # "Reset"
 Judge(k) ==
   /\ Report(k, "C09.ConsRootsAreHeaderRoots", ln(k).st.rootsok /\ ln(k).st.headok)
   /\ IsStep(k) =>
-     LET hd == Hd(ln(k).args.hd)  ok == ln(k).res = "ok" IN
+     LET hd == Hd(ln(k).args.hd)  ok == ln(k).res = "ok" /\ ln(k).ev = "Update"  upg == ln(k).res = "ok" /\ ln(k).ev = "Upgrade" IN
+     (* a governance upgrade installs exactly the proposal: head, validator set, the announced pending set, a reset window (C18 for the BSC type) *)
+     /\ Report(k, "C18.BscUpgradeInstalls", upg => (number' = hd.number /\ validators' = SetOf(ln(k).args.set) /\ pending' = hd.extra
+                                                     /\ DOMAIN recents' = {hd.number} /\ recents'[hd.number] = hd.signer /\ hd.number \in cons'))
+     (* ... and leaves a usable client: a header that is valid against what the upgrade installed (and against the blocks accepted since) is accepted *)
+     /\ Report(k, "C18.BscValidUpdateAccepted",
+          (ln(k).ev = "Update" /\ hd.structOK /\ hd.number = number + 1 /\ hd.parentOK /\ hd.coinbaseOK
+            /\ ((hd.number % Epoch # 0) => hd.extra = {}) /\ ((hd.number % Epoch = 0) => hd.extra # {})
+            /\ hd.signer \in validators
+            /\ hd.signer \notin { sealed[m] : m \in {x \in DOMAIN sealed : x >= hd.number - (Cardinality(validators) \div 2) /\ x < hd.number} }
+            /\ hd.diff = (IF InTurn(validators, number, hd.signer) THEN 2 ELSE 1)) => ln(k).res = "ok")
      /\ Report(k, "C09.AcceptedIsChild", ok => (hd.number = number + 1 /\ hd.parentOK /\ hd.structOK /\ ((hd.number % Epoch # 0) => hd.extra = {}) /\ ((hd.number % Epoch = 0) => hd.extra # {})))
      /\ Report(k, "C09.SignerEligible", ok => Eligible(hd))
      (* the same clause against what really happened: the sealer sealed none of the last floor(N/2) accepted blocks *)
      /\ Report(k, "C09.NotARecentSealer", ok => hd.signer \notin { sealed[m] : m \in {x \in DOMAIN sealed : x >= hd.number - (Cardinality(validators) \div 2) /\ x < hd.number} })
-     /\ Report(k, "C09.SetChangesOnlyAtOffset", validators' # validators => (number' % Epoch = Cardinality(validators) \div 2 /\ validators' = pending'))
+     /\ Report(k, "C09.SetChangesOnlyAtOffset", (validators' # validators /\ ~upg) => (number' % Epoch = Cardinality(validators) \div 2 /\ validators' = pending'))
      (* ... and at that offset it does change to it *)
      /\ Report(k, "C09.SetSwitchesAtOffset", (ok /\ number' % Epoch = Cardinality(validators) \div 2) => validators' = pending')
-     /\ Report(k, "C09.PendingOnlyAtEpoch", pending' # pending => (ok /\ number' % Epoch = 0 /\ pending' = hd.extra))
+     (* the same against the trace's own record of what the last epoch header announced *)
+     /\ Report(k, "C09.SwitchesToAnnounced", (ok /\ validators' # validators) => validators' = announced')
+     /\ Report(k, "C09.PendingIsAnnounced", (ok \/ upg) => pending' = announced')
+     /\ Report(k, "C09.PendingOnlyAtEpoch", pending' # pending => ((ok \/ upg) /\ number' % Epoch = 0 /\ pending' = hd.extra))
      /\ Report(k, "C09.ConsIsRoot", ok => (cons' = cons \cup {hd.number} /\ number' = hd.number))
-     /\ Report(k, "C09.RejectChangesNothing", ~ok => (ln(k).dg.pre = ln(k).dg.post /\ UNCHANGED stateVars))
-C_Step(k) == UpdateEff(Hd(ln(k).args.hd)) /\ (ln(k).res = "ok") = Accept(Hd(ln(k).args.hd))
+     /\ Report(k, "C09.RejectChangesNothing", ln(k).res # "ok" => (ln(k).dg.pre = ln(k).dg.post /\ UNCHANGED stateVars))
+C_Step(k) == IF ln(k).ev = "Upgrade"
+             THEN UpgradeEff(Hd(ln(k).args.hd), SetOf(ln(k).args.set)) /\ (ln(k).res = "ok") = UpgradeOK(Hd(ln(k).args.hd))
+             ELSE UpdateEff(Hd(ln(k).args.hd)) /\ (ln(k).res = "ok") = Accept(Hd(ln(k).args.hd))
 Conform(k) == IsStep(k) => (C_Step(k) \/ PrintT(<<"DRIFT", k, ln(k).ev>>))
 TNext == LET k == l + 1 IN
   /\ l < Len(Trace) /\ l' = k
@@ -39,7 +56,10 @@ TNext == LET k == l + 1 IN
   /\ recents' = FnOf(ln(k).st.recents) /\ cons' = SetOf(ln(k).st.cons)
   /\ last' = [act |-> ln(k).ev, res |-> ln(k).res]
   /\ sealed' = IF ln(k).ev = "Reset" THEN (ln(k).args.number :> ln(k).args.signer)
+               ELSE IF ln(k).res = "ok" /\ ln(k).ev = "Upgrade" THEN (ln(k).args.hd.number :> ln(k).args.hd.signer)   \* the client starts over from the proposal's header
                ELSE IF ln(k).res = "ok" THEN (ln(k).args.hd.number :> ln(k).args.hd.signer) @@ sealed ELSE sealed
+  /\ announced' = IF ln(k).ev = "Reset" THEN SetOf(ln(k).args.set)
+                  ELSE IF ln(k).res = "ok" /\ (ln(k).ev = "Upgrade" \/ ln(k).args.hd.number % Epoch = 0) THEN SetOf(ln(k).args.hd.extra) ELSE announced
   /\ Judge(k) /\ Conform(k)
-TSpec == TInit /\ [][TNext]_<<l, vars, sealed>>
+TSpec == TInit /\ [][TNext]_<<l, vars, sealed, announced>>
 =============================================================================
